@@ -17,6 +17,12 @@ func New(ptn string) (*Pattern, error) {
 	return pb.getPattern()
 }
 
+// StartAnchored returns true if the pattern starts with '^', i.e. it can only
+// match at the position where matching starts.
+func (p *Pattern) StartAnchored() bool {
+	return p.startAnchor
+}
+
 // MatchFromStart returns a slice of Capture instances that match the given
 // string, starting from the `init` index.
 func (p *Pattern) MatchFromStart(s string, init int, budget uint64) (captures []Capture, used uint64) {
